@@ -27,7 +27,7 @@ CONFIG = {
 
 OBJ_KINDS = ['makespan', 'flowtime', 'priorities', 'start_latest', 'greatest_start', 'indicator_min', 'indicator_max',
              'bounded_min', 'bounded_min_tight', 'bounded_min_tight', 'bounded_max', 'bounded_max', 'multi', 'multi_weighted',
-             'weighted_tradeoff']
+             'weighted_tradeoff', 'optional_bound']
 
 
 # ----------------------------------------------------------------------------------------------
@@ -144,6 +144,17 @@ def add_objectives(ps, im, kinds, r):
         elif k == 'multi':
             ps.ObjectiveMinimizeMakespan()
             ps.ObjectiveMinimizeFlowtime()
+        elif k == 'optional_bound':
+            # an optional IndicatorBounds on the indicator that is then optimised: the solver may leave it unapplied, so it is
+            # not a bound of the objective
+            t = tasks[0]
+            ind = ps.IndicatorFromMathExpression(name='StartOfFirstFree', expression=t._start)
+            if r.random() < 0.5:
+                ps.IndicatorBounds(indicator=ind, lower_bound=r.choice([1, 2, 3]), optional=True)
+                ps.ObjectiveMinimizeIndicator(target=ind, weight=1)
+            else:
+                ps.IndicatorBounds(indicator=ind, upper_bound=r.choice([0, 0, 1]), optional=True)
+                ps.ObjectiveMaximizeIndicator(target=ind, weight=1)
         elif k == 'weighted_tradeoff':
             # two objectives that pull in opposite directions, so that the weights decide: WA (3 long) and WB (2 long) cannot
             # overlap; with weight 3 on the end of WA and 1 on the end of WB the optimum runs WA first (3*3 + 5 = 14 against
@@ -351,6 +362,11 @@ def analyse(out, case, solver, tasks, varlist, outs, marks, sp, z3):
         direction = 'Minimize' if obj.kind == 'minimize' else 'Maximize'
         if obj._bounds is not None:
             bound = obj._bounds[0] if obj.kind == 'minimize' else obj._bounds[1]
+            # only the harness declares bounds, and only true ones (the hypothesis of C07_bound_stop): an objective that carries
+            # bounds nobody declared would make the loop stop on a value that is no bound
+            if case.get('objs') and case['objs'][0] not in ('bounded_min', 'bounded_min_tight', 'bounded_max'):
+                out.setdefault('presem', []).append(('objective-carries-bounds-nobody-declared', str(obj._bounds), None))
+                bound = None
     nchecks = (max(answers) + 1) if answers else 0
     values = []
     for k in range(nchecks):
@@ -575,7 +591,7 @@ def analyse(out, case, solver, tasks, varlist, outs, marks, sp, z3):
                         if 'unknown' not in answers.values():
                             sem.append(('feasible-reported-infeasible', None, None))
                             break
-    out['sem'] = sem
+    out['sem'] = sem + out.pop('presem', [])
 
 
 def im_objectives(solver):
